@@ -492,8 +492,32 @@ pub fn c12_case(rs: u64, _nonce: u64, replay: Option<Vec<u32>>) -> CaseOutcome {
 // ---------------------------------------------------------------------------------------------
 
 fn hostile_image(t: &mut Tape) -> (Vec<u8>, &'static str) {
-    let class = t.choose(if crate::tape::gen() >= 2 { 11 } else { 10 }, "img_class");
+    let class = t.choose(if crate::tape::gen() >= 2 { 12 } else { 10 }, "img_class");
     let size = t.pick(&[2048usize, 128, 256, 1024, 4096, 16384, 512], "img_size");
+    if class == 11 {
+        // A consistent process-data device whose FMMU_EX category has more entries than an ESC has
+        // FMMUs, the entries for its real sync managers sitting beyond position 15.
+        let cfg = GenCfg { mailbox_pct: 0, pd_pct: 100, fmmu_ex_pct: 100, ..GenCfg::default() };
+        let mut spec = netgen::gen_device(t, &cfg, 0);
+        let real: Vec<u8> = spec.image.sync_managers().iter().enumerate().filter(|(_, s)| s.usage == 3 || s.usage == 4 || (s.usage == 0 && s.enable != 0)).map(|(i, _)| i as u8).collect();
+        let lead = 16 + t.choose(20, "fmmu_ex_lead");
+        let filler = t.pick(&[0xffu8, 9, 15, 200], "fmmu_ex_filler");
+        let mut entries: Vec<[u8; 3]> = (0..lead).map(|_| [0u8, filler, 0u8]).collect();
+        for r in &real {
+            entries.push([0, *r, 0]);
+        }
+        let mut replaced = false;
+        for c in spec.image.categories.iter_mut() {
+            if let sii::Category::FmmuEx(x) = c {
+                *x = entries.clone();
+                replaced = true;
+            }
+        }
+        if !replaced {
+            spec.image.categories.push(sii::Category::FmmuEx(entries));
+        }
+        return (spec.image.encode(true), "fmmu-ex-overlong");
+    }
     if class == 10 {
         // A category chain that leaves the 64 Ki word address space (exactly at its end, or a few
         // words beyond) and whose continuation in the header area leads back to the first category:
